@@ -1,11 +1,11 @@
 #!/usr/bin/env python3
-# Regenerates the table of DESIGN.md section 10 from seeded/<id>/<k>/{meta.json,confirm.json,result.*.json}
+# Regenerates the table of DESIGN.md section 10 from seeded/<property>-<k>/{meta.json,confirm.json,result.*.json}
 import json, glob, os, re
 rows=[]
-for d in sorted(glob.glob('/verif/seeded/C??/[0-9]*')):
+for d in sorted(glob.glob('/verif/seeded/C??-[0-9]*')):
     try: meta=json.load(open(d+'/meta.json'))
     except Exception: continue
-    pid, k = d.split('/')[-2], d.split('/')[-1]
+    pid, k = d.split('/')[-1].split('-')
     conf = json.load(open(d+'/confirm.json')) if os.path.exists(d+'/confirm.json') else {}
     confirmed = conf.get('build_rc')==0 and conf.get('unit_tests_rc')==0 and conf.get('demo_clean_rc')==0 and conf.get('demo_patched_rc') not in (0,99,None)
     caught=[]; missed=[]
